@@ -51,26 +51,33 @@ def run(ck, facts):
         not the parent's it was cloned from: an abi_rename written on the item itself takes effect"""
         fset = C.fns_inl(core, fn_, 2)
 
-        def merged(g, lid, depth=0):
-            """local `lid` of g holds the item's own merged attributes: add_attrs / add_attr was called on it, or it is a parameter every caller fills with such a value"""
-            for x in C.walk(C.fn_body(g)):
+        def merged(g, lid, depth=0, before=None):
+            """local `lid` of g holds the item's own merged attributes (at node `before`, when given): add_attrs / add_attr was called on it earlier in g,
+            or it is a parameter every caller fills with such a value"""
+            order = list(C.walk(C.fn_body(g)))
+            lim = next((i_ for i_, x in enumerate(order) if x is before), None) if before is not None else None
+            for i_, x in enumerate(order):
                 if x.get("k") == "mcall" and x.get("m") in ("add_attrs", "add_attr") and C.strip(x["recv"]).get("k") == "local" and C.strip(x["recv"]).get("id") == lid:
-                    return True
+                    if lim is None or i_ < lim:
+                        return True
             ps = [p_.get("id") if isinstance(p_, dict) else None for p_ in g["hir"].get("params", [])]
             if lid in ps and depth < 3:
                 j_ = ps.index(lid)
                 sites = []
+                c_of = {}
                 for h in fset:
                     for c_ in C.walk(C.fn_body(h)):
                         if c_.get("k") in ("call", "mcall") and C.norm_path(c_.get("p") or C.callee(c_) or "") == C.norm_path(g["path"]):
                             args = ([c_["recv"]] + list(c_.get("a") or [])) if c_.get("k") == "mcall" else list(c_.get("a") or [])
                             sites.append((h, args[j_] if j_ < len(args) else None))
+                            if j_ < len(args):
+                                c_of[id(args[j_])] = c_
                 ok_all = bool(sites)
                 for h, a_ in sites:
                     a0 = C.strip(a_) if a_ is not None else {}
                     while a0.get("k") == "addr":
                         a0 = C.strip(a0["e"])
-                    ok_all = ok_all and a0.get("k") == "local" and merged(h, a0.get("id"), depth + 1)
+                    ok_all = ok_all and a0.get("k") == "local" and merged(h, a0.get("id"), depth + 1, before=c_of.get(id(a_)))
                 return ok_all
             return False
         used, holders = [], []
@@ -80,17 +87,17 @@ def run(ck, facts):
                     r_ = C.strip(n_["recv"])
                     if r_.get("k") == "field" and r_.get("n") == "abi_rename":
                         b_ = C.strip(r_["e"])
-                        used.append((g, b_.get("id") if b_.get("k") == "local" else None, b_.get("n")))
+                        used.append((g, b_.get("id") if b_.get("k") == "local" else None, b_.get("n"), n_))
                 if n_.get("k") == "struct":
                     for fl in n_["fields"]:
                         if fl["n"] == "attrs":
                             e_ = C.strip(fl["e"])
                             if e_.get("k") == "local" and merged(g, e_.get("id")):
                                 holders.append(e_.get("id"))
-        ok_ = bool(holders) and bool(used) and all(u is not None and merged(g, u) for g, u, _ in used)
+        ok_ = bool(holders) and bool(used) and all(u is not None and merged(g, u, before=at_) for g, u, _, at_ in used)
         ck.expect(ok_, "R1", label + "/rename-of-own-attrs", "renamed with the attrs stored in the item", "%s renames the symbol with `%s.abi_rename`, which is not the item's own merged attribute set (the one "
                   "add_attrs was called on and that is stored in the item; %d such holders): an #[diplomat::abi_rename] written on the item itself is ignored for its exported name" %
-                  (label, [n for _, _, n in used], len(holders)), C.loc(fn_))
+                  (label, [n for _, _, n, _ in used], len(holders)), C.loc(fn_))
     own_attrs_rule(core.fn("ast::methods::Method::from_syn"), "ast::methods::Method", "Method::from_syn")
     for ctor in ("ast::opaque::OpaqueType::new_struct", "ast::opaque::OpaqueType::new_enum"):
         own_attrs_rule(core.fn(ctor), "OpaqueType", ctor.split("::")[-1])
@@ -248,6 +255,38 @@ def run(ck, facts):
             continue
         ok, sym = only_fields(flow.trace(hit["init"], defs), [("abi_name", HM)])
         ck.expect(ok, "R2", "kotlin::%s/%s" % (path.split("::")[-1], var), str(sorted(sym)), "Kotlin native method name derives from %s" % sorted(sym), C.loc(f))
+    # kotlin: the JNA interface declares a native function for every method that is generated, with or without a receiver: the walk that feeds
+    # gen_native_method_info selects on `disable` only (the wrappers -- instance and companion -- both call `lib.<abi_name>`)
+    nnat = 0
+    for f in tool.fn_list:
+        if "hir" not in f or "::kotlin::" not in f["path"] or f.get("dk") == "Closure":
+            continue
+        binds = {}
+        for n in C.walk(C.fn_body(f)):
+            if n.get("k") == "letst" and n.get("init") is not None:
+                for i_ in C.pat_bind_ids(n.get("pat")) or []:
+                    binds[i_] = n["init"]
+        for n in C.walk(C.fn_body(f)):
+            if not (n.get("k") == "mcall" and n.get("m") in ("map", "filter_map", "flat_map") and n.get("a")
+                    and any(y.get("k") == "mcall" and y.get("m") == "gen_native_method_info" for y in C.walk(n["a"][0]))):
+                continue
+            nnat += 1
+            chain, seen_, todo_ = [], set(), [n["recv"]]
+            while todo_:
+                e_ = todo_.pop()
+                for y in C.walk(e_):
+                    chain.append(y)
+                    if y.get("k") == "local" and y.get("id") in binds and y["id"] not in seen_:
+                        seen_.add(y["id"])
+                        todo_.append(binds[y["id"]])
+            sel = sorted({y.get("n") for y in chain if y.get("k") == "field" and y.get("n") in ("param_self", "params", "output", "name", "abi_name", "special_method")})
+            from_methods = any(y.get("k") == "field" and y.get("n") == "methods" for y in chain)
+            fname = C.norm_path(f["path"]).split("::")[-1]
+            ck.expect(from_methods and not sel, "R3", "kotlin::%s/native-declaration-for-every-generated-method" % fname, "all non-disabled methods",
+                      "%s declares JNA functions only for a selection of the type's methods (selected by %s; from `.methods`: %s): an exported function the generated wrappers call "
+                      "through `lib.<name>` has no declaration in the Library interface" % (fname, sel, from_methods), C.loc(f, n.get("ln")))
+    if nnat < 3:
+        ck.bad("R3", "kotlin/native-declaration/floor", "only %d walks feeding gen_native_method_info found (3 counted: opaque, struct, enum)" % nnat)
     # namespace_c_method_name keeps the name intact
     ns = tool.fn("cpp::formatter::Cpp2Formatter::namespace_c_method_name")
     lits = C.str_lits(C.fn_body(ns))
